@@ -147,6 +147,7 @@ func grammarMain(r *run.Runner, spans bool) {
 		}
 	})
 	// scale: many sibling groups, long pipelines, deep nesting
+	scaleThorough = r.Thorough()
 	scale := scalePrograms()
 	bounds["scale_programs"] = len(scale)
 	bounds["scale_sizes"] = scaleSizes
